@@ -54,7 +54,10 @@ def inv_cases(rng, tier):
             # shift-and-invert: with other norms the ABSOLUTE breakdown thresholds of Arnoldi/Lanczos lose orthogonality (design note D3)
             breaky = fam in ('identity', 'lowrank') or gfam in ('gidentity', 'gperm')
             start = rng.choice(['I', 'V:r%d' % rng.below(100)] + ([] if (is_gen(cls) or shifty or 'SymG' in cls) else ['V:e%d' % rng.below(4), 'V:s%d' % rng.below(4)]))
-            breaky = breaky or start[:3] in ('V:e', 'V:s')
+            if 'SymG' in cls and h % 4 == 1:
+                start = 'V:g%d' % rng.below(6)        # an eigenvector of the pencil: the run goes through a breakdown right after init()
+                fam = rng.choice(['gapped', 'posgapped'])
+            breaky = breaky or start[:3] in ('V:e', 'V:s', 'V:g')
             ops = [start, 'C:%d:%d:%s:%d' % (rng.choice(sels), rng.choice([0, 2, 6, 40]), '1e-10', rng.choice(sorts))]
             if rng.below(3) == 0:
                 ops.append('C:%d:%d:%s:%d' % (rng.choice(sels), rng.choice([1, 5]), '1e-10', rng.choice(sorts)))
@@ -117,15 +120,43 @@ def run(ck, replay=None):
         ck.oblige('invariant runs completed', rc == 0 and len(res) == len(hs), 'rc=%s' % rc)
         badi = []
         nev_total = 0
+        kd3 = [f for f in load_known().get('findings', []) if f.get('property') == 'C07' and f.get('id') == 'F5-C07']
+        wd3 = {}
+
+        def known_d3(exe_):
+            """F5-C07 (design note D3): orthonormality only to ~1e-10 after a breakdown restart; absorbed only while the listed witness still fails"""
+            if not kd3:
+                return False
+            if 'ok' not in wd3:
+                rcw, rw = run_hist(exe_, [kd3[0]['witness']])
+                worst_w = 0.0
+                try:
+                    for st_ in rw[0]['steps']:
+                        for e_ in st_.get('events', []):
+                            if isinstance(e_[-1], dict) and e_[-1].get('finite'):
+                                worst_w = max(worst_w, e_[-1].get('orth', 0.0))
+                except Exception:
+                    pass
+                wd3['ok'] = worst_w > TOL['orth']
+            if not wd3['ok']:
+                return False
+            msg = 'F5-C07 after a Krylov breakdown restart the basis is orthonormal only to ~1e-10 (absolute breakdown thresholds, design note D3) (witness: SymEigsSolver n=28 nev=25 ncv=28 clustered V:s0 mseed=721971)'
+            if msg not in ck.known_hits:
+                ck.known_hits.append(msg)
+            return True
+
         worst = {k: 0.0 for k in TOL}
         for line, d in zip(hs, res):
             if 'steps' not in d:
                 badi.append((line, 'harness error ' + str(d.get('error')))); continue
             nrest = 0
+            broke_down = False          # a MISSED (near-)breakdown in this run: a non-zero sub-diagonal of H below 2e-6 |H| was accepted as a Lanczos/Arnoldi coefficient
             for s in d['steps']:
                 for e in s.get('events', []):
                     if e[0] == 'eigs.restart' or e[0] == 'arnoldi.expand_basis':
                         nrest += 1
+                    if isinstance(e[-1], dict) and e[-1].get('minsub', 1.0) < 2e-6:
+                        broke_down = True
                     if isinstance(e[-1], dict):
                         kr = e[-1]; nev_total += 1
                         if not kr['finite']:
@@ -134,6 +165,8 @@ def run(ck, replay=None):
                             continue
                         for key, tol in TOL.items():
                             worst[key] = max(worst[key], kr[key])
+                            if kr[key] > tol and key in ('orth', 'fperp', 'rel') and broke_down and (kr[key] < 1e-6 or (' cls=Gen' in line and ('gfam=gidentity' in line or 'gfam=gperm' in line))) and known_d3(gexe):
+                                continue
                             if kr[key] > tol:
                                 names = {'rel': '|AV - VH - f e_k\'| / |AV|', 'orth': '|V\'BV - I|', 'fperp': '|V\'Bf| / |AV|', 'shape': 'H not Hessenberg/tridiagonal', 'sym': 'H not symmetric', 'beta': 'beta != |f|'}
                                 badi.append((line, '%s at %s(%d,%d), dimension %d: %s = %.3g' % (s['op'], e[0], e[1], e[2], kr['k'], names[key], kr[key])))
